@@ -52,14 +52,22 @@ pub fn build_rule(r: &J) -> Result<MatchRule<'static>, String> {
     if has(r, "destination") {
         b = b.destination(str_of(&r["destination"])).map_err(e)?;
     }
-    if let Some(args) = r.get("args").and_then(|a| a.as_array()) {
-        for a in args {
-            b = b.arg(a["i"].as_u64().unwrap() as u8, str_of(&a["v"])).map_err(e)?;
+    if let Some(ops) = r.get("ops").and_then(|a| a.as_array()) {
+        // the builder calls as given (any order, indices may repeat); `args` / `arg_paths` then hold what they denote
+        for a in ops {
+            let i = a["i"].as_u64().unwrap() as u8;
+            b = if a["k"] == "arg" { b.arg(i, str_of(&a["v"])) } else { b.arg_path(i, str_of(&a["v"])) }.map_err(e)?;
         }
-    }
-    if let Some(args) = r.get("arg_paths").and_then(|a| a.as_array()) {
-        for a in args {
-            b = b.arg_path(a["i"].as_u64().unwrap() as u8, str_of(&a["v"])).map_err(e)?;
+    } else {
+        if let Some(args) = r.get("args").and_then(|a| a.as_array()) {
+            for a in args {
+                b = b.arg(a["i"].as_u64().unwrap() as u8, str_of(&a["v"])).map_err(e)?;
+            }
+        }
+        if let Some(args) = r.get("arg_paths").and_then(|a| a.as_array()) {
+            for a in args {
+                b = b.arg_path(a["i"].as_u64().unwrap() as u8, str_of(&a["v"])).map_err(e)?;
+            }
         }
     }
     if has(r, "arg0ns") {
@@ -665,6 +673,29 @@ pub fn cmd_rulestr_rand(args: &[String]) {
             args.sort();
             if has(&r, "arg0ns") && used.contains(&0) {
                 r.as_object_mut().unwrap().remove("arg0ns");
+            }
+            if g.chance(1, 3) {
+                // builder calls in any order with repeats: the last call for an index wins
+                let ns = has(&r, "arg0ns");
+                let pool: Vec<u64> = [0u64, 1, 2, 9, 10, 63]
+                    .iter()
+                    .copied()
+                    .filter(|i| (!used.contains(i) || args.iter().any(|(j, _)| j == i)) && !(ns && *i == 0))
+                    .collect();
+                let mut ops: Vec<(u64, String)> = vec![];
+                for _ in 0..3 + g.below(4) {
+                    ops.push((*g.pick(&pool), rand_value_text(&mut g)));
+                }
+                let mut last = std::collections::BTreeMap::new();
+                for (i, v) in &ops {
+                    last.insert(*i, v.clone());
+                }
+                args = last.into_iter().collect();
+                let mut all: Vec<J> = ops.iter().map(|(i, v)| json!({"k": "arg", "i": i, "v": b(v)})).collect();
+                for a in r["arg_paths"].as_array().unwrap() {
+                    all.push(json!({"k": "argpath", "i": a["i"], "v": a["v"]}));
+                }
+                r["ops"] = J::Array(all);
             }
             r["args"] = J::Array(args.iter().map(|(i, v)| json!({"i": i, "v": b(v)})).collect());
             let o = observe_str(&r);
